@@ -206,6 +206,27 @@ def check_case(case):
             out.append(("v2-without-end-tags-not-refused", f"version {cfg['version']} close_elements=False composed a request"))
         except Exception:
             pass
+        # the same combination reached through the per-call overrides of a correctly configured client
+        from ofxtools.models.ofx import OFX
+
+        for base_ver, base_close in ((102, False), (cfg["version"], True)):
+            try:
+                cl = make_client(dict(cfg, version=base_ver, close=base_close))
+                ofx = OFX(signonmsgsrqv1=cl.signon(cfg["password"]))
+            except Exception as e:
+                out.append(("valid-client-refused", repr(e)))
+                continue
+            for what, fn in (
+                ("serialize", lambda: cl.serialize(ofx, version=cfg["version"], close_elements=False)),
+                ("download-dryrun", lambda: cl.download(ofx, version=cfg["version"], close_elements=False, dryrun=True)),
+                ("request_profile-dryrun", lambda: cl.request_profile(version=cfg["version"], close_elements=False, dryrun=True)),
+            ):
+                try:
+                    r = fn()
+                    data = r if isinstance(r, bytes) else r.read()
+                    out.append((f"v2-without-end-tags-not-refused/{what}", f"version {cfg['version']}: composed {data[:120]!r}"))
+                except Exception:
+                    pass
         return out
     try:
         data = compose(case)
